@@ -12,7 +12,11 @@ PROPS_MODULE = "NumbersModel.Props.C18"
 THEOREMS = [f"NumbersModel.Props.C18.{t}" for t in (
     "tokenize_lossless", "tokenize_total", "tokenize_terminates", "quotes_not_split", "dq_literal_wellformed",
     "sq_literal_wellformed", "tables_as_modelled", "dispatch_chars_end_tokens", "error_codes_ok",
-    "grammar_accepted", "reader_output_accepted_partial")]
+    "grammar_accepted", "reader_output_accepted_partial")] + [
+    # the two token-buffer methods as py2lean regenerates them from tokenizer.py on every run
+    "NumbersModel.Props.C18.Src.src_assert_empty_token", "NumbersModel.Props.C18.Src.src_save_token",
+    "NumbersModel.Translated.assert_empty_token_eq_model", "NumbersModel.Translated.save_token_eq_model"]
+TRANSLATED_GROUPS = ("Tok",)
 PARTIAL = {"NumbersModel.Props.C18.reader_output_accepted_partial":
            "clause 4 is proved for every text of the formula grammar G (grammar_accepted: plain operands, string literals, "
            "references with quoted names alone / behind a Table:: prefix / on either side of a range colon, all operators, "
@@ -40,11 +44,14 @@ MANIFEST = {
             "('a-b', Table 1::'a-b', 'a-b':'c+d', alpha:'a-b', 'a-b':alpha); the domain predicate refOK is compared with an "
             "independent Python statement exhaustively on short strings and the real tokenizer is run on everything it admits. "
             "Names containing an apostrophe stay outside (recorded finding). Model tied to the code by exhaustive "
-            "correspondence on short strings (>= 500k inputs per quick run).",
+            "correspondence on short strings (>= 500k inputs per quick run). Tokenizer.assert_empty_token and Tokenizer.save_token are additionally TRANSLATED from tokenizer.py on every run "
+            "(harness/py2lean.py -> Gen/TrTok.lean, self.items / self.token threaded as state variables) and proved to refine the "
+            "model's assertEmpty / saveToken under the representation invariant Rep (Lemmas/TrTok.lean, Props.C18.Src.src_*); run "
+            "against the real methods on harness-made buffers (trdriver).",
     "note": "The two string regexes and SN_RE are replaced by hand-derived scanners (the derivation is in Model/Tokenizer.lean; "
             "the pattern strings are generated and a theorem pins them, so a changed pattern breaks a proof obligation). "
             "float() in make_operand is not modelled.",
-    "technique": "Lean 4 proof (loop invariants by induction over fuel; acceptance by induction over a formula grammar) + exhaustive differential correspondence on short strings",
+    "technique": "Lean 4 proof (loop invariants by induction over fuel; acceptance by induction over a formula grammar; the two token-buffer methods proved to refine the model from their translation from the Python source) + exhaustive differential correspondence on short strings",
 }
 
 TYPES = {"OPERAND": "OPERAND", "FUNC": "FUNC", "ARRAY": "ARRAY", "PAREN": "PAREN", "SEP": "SEP",
@@ -241,8 +248,43 @@ def consumer_history(ctx: Ctx, Tokenizer, TokenizerError, texts):
     ctx.extra["consumer_history"] = {"texts": len(texts), "consumer_runs": consumed}
 
 
+def translated_source_stream(ctx: Ctx, Tokenizer):
+    """Tokenizer.assert_empty_token / save_token called on instances whose buffer the harness sets up (every list of <= 3
+    pieces over a small pool) vs the definitions translated from tokenizer.py."""
+    import itertools
+
+    import common
+    pool = ["A", "1", "SUM", "(", "1E", "+", '"a"', "#REF!", "TRUE", "a b", "é", ":"]
+    req, out = [], []
+    for k in range(0, 4):
+        for pieces in itertools.product(pool, repeat=k):
+            if k == 3 and ctx.quick and hash(pieces) % 4:
+                continue
+            enc = f"{k} " + " ".join(enc_text(p) for p in pieces) if k else "0"
+            t = object.__new__(Tokenizer)
+            t.formula, t.offset, t.items, t.token_stack, t.token = "".join(pieces), 0, [], [], list(pieces)
+            req.append("tokbuf assertempty " + enc)
+            try:
+                t.assert_empty_token()
+                out.append("ok ")
+            except Exception as e:  # noqa: BLE001
+                out.append("err " + exc_name(e))
+            req.append("tokbuf savetoken " + enc)
+            try:
+                t.save_token()
+                out.append("ok " + " ".join(f"{enc_text(x.value)}/{TYPES[x.type]}/{SUBS[x.subtype]}" for x in t.items) + f" | {len(t.token)}")
+                if [x.value for x in t.items] != (["".join(pieces)] if pieces else []) or t.token:
+                    ctx.violation("save-token-not-lossless", f"save_token with buffer {list(pieces)!r} left items "
+                                  f"{[x.value for x in t.items]!r}, buffer {t.token!r}", {"text": "".join(pieces)})
+            except Exception as e:  # noqa: BLE001
+                out.append("err " + exc_name(e))
+    common.translated_only_stream(ctx, "Tokenizer.assert_empty_token / save_token on harness-made buffers (<= 3 pieces) vs the "
+                                       "definitions translated from the source", req, out)
+
+
 def run(ctx: Ctx):
     from numbers_parser.tokenizer import Tokenizer, TokenizerError
+    translated_source_stream(ctx, Tokenizer)
 
     def batch(name, strs, exhaustive=False):
         req = [f"tok tokenize {enc_text(s)}" for s in strs]
